@@ -1,10 +1,11 @@
-\* F2: poisoned lock, two writers, code as written: RWExclusion violated in 9 steps
-SPECIFICATION Spec
+SPECIFICATION MCSpec
 CONSTANTS
-  Actors = {"a1","a2"}
-  Prog <- P2
+  Actors = {"a1", "a2"}
+  Victims = {}
+  Prog <- Pf2
   InitPoison = TRUE
-  Fix1 = FALSE
+  Fix1 = TRUE
   Fix2 = FALSE
-INVARIANTS RWExclusion NothingBad GuardsBalance
+INVARIANTS RWExclusion NothingBad PopNeverEmpty GuardsBalance
+VIEW View
 CHECK_DEADLOCK TRUE
